@@ -24,7 +24,8 @@ def _treat_entry(block: Entry, bibtex_format) -> List[str]:
         res.append(field.key)
         res.append(_val_intent_string(bibtex_format, field.key))
         res.append(VAL_SEP)
-        res.append(field.value)
+        # values are normally strings; an unenclosed number left as an int is written as is
+        res.append(str(field.value) if type(field.value) is int else field.value)
         if bibtex_format.trailing_comma or i < len(block.fields) - 1:
             res.append(",")
         res.append("\n")
